@@ -20,11 +20,12 @@ LEVEL_NOTE = ('trusted: R4 (cross-checked against fnmatchcase on 32k pairs in th
               'fnmatch readings differ the entry is don\'t-care')
 RULE = ('patterns: token strings of length 1-3 over {a,A,b,.,*,?,[ab],[!a],[} plus {/home/u/w/a, /home/*/a, /*, /mnt/v1/*, /home/u/w/?, '
         '/home/u/w2/[ab], /home/u/w/a?, ""} x name subsets (<=2 quick, <=3 thorough) of {a,A,ab,b,a*,[ab],a.b,.a,"a "}, each name stored from '
-        '/home/u/w, /home/u/w2, /mnt/v1/p (in .Trash-uid) and /mnt/v1/q (in .Trash/uid); non-trivial = at least one entry matched and at least one did not; distinct = (pattern shape, outcome)')
+        '/home/u/w, /home/u/w2, /mnt/v1/p (in .Trash-uid, which is a symbolic link to a relocated directory) and /mnt/v1/q (in .Trash/uid); non-trivial = at least one entry matched and at least one did not; distinct = (pattern shape, outcome)')
 TOKENS = ['a', 'A', 'b', '.', '*', '?', '[ab]', '[!a]', '[']
-FULL = ['a ', ' a', '/home/u/w/a ', '/mnt/v1/q/a', '/mnt/v?/p/a', '/mnt/[v]1/p/ab', '/mnt/v1/p/.a', '.a', '.?', '/home/u/w/a', '/home/*/a', '/*', '/mnt/v1/*', '/home/u/w/?', '/home/u/w2/[ab]', '/home/u/w/a?', '']
+FULL = ['a ', ' a', '/home/u/w/a ', '/mnt/v1/q/a', '/home/u/w/a/', '/home/u//w/a', '/home/u/w/./a', '/home/u/w/b/../a', '/home/u/w2/*/../a', '/mnt/v?/p/a', '/mnt/[v]1/p/ab', '/mnt/v1/p/.a', '.a', '.?', '/home/u/w/a', '/home/*/a', '/*', '/mnt/v1/*', '/home/u/w/?', '/home/u/w2/[ab]', '/home/u/w/a?', '']
 NAMES = ['a', 'A', 'ab', 'b', 'a*', '[ab]', 'a.b', '.a', 'a ']
-DIRS = [('/home/u/w', scen.HOME_TRASH, ''), ('/home/u/w2', scen.HOME_TRASH, '_1'), ('/mnt/v1/p', '/mnt/v1/.Trash-0', ''),
+ALT_REAL = '/mnt/v1/.Trash-0real'          # /mnt/v1/.Trash-0 is a symbolic link to this directory (a relocated trash)
+DIRS = [('/home/u/w', scen.HOME_TRASH, ''), ('/home/u/w2', scen.HOME_TRASH, '_1'), ('/mnt/v1/p', ALT_REAL, ''),
         ('/mnt/v1/q', '/mnt/v1/.Trash/0', '')]          # the other volume has BOTH kinds of trash directory in use
 
 
@@ -58,6 +59,7 @@ def shape(p):
 def run_case(c):
     W = scen.base_world(mounts=['/', '/mnt/v1'], cwd='/')
     W.dir('/mnt/v1/.Trash', mode=0o1777)
+    W.dir(ALT_REAL, mode=0o700).link('/mnt/v1/.Trash-0', '.Trash-0real')
     ents = []
     for n in c['names']:
         for d, td, suf in DIRS:
